@@ -706,6 +706,21 @@ impl cv::SimKernel for Kernel {
         0
     }
 
+    fn kill(&mut self, pid: i32, sig: i32) -> i32 {
+        let mut w = self.w.lock().unwrap();
+        let name = w.pname(pid);
+        w.ev(format!("kill-one {} {}", name, sig));
+        if sig == libc::SIGCONT {
+            if let Some(i) = w.idx_of_pid(pid) {
+                if w.procs[i].state == PState::Stop {
+                    w.procs[i].state = PState::Run;
+                    w.procs[i].pending = Pending::Cont;
+                }
+            }
+        }
+        0
+    }
+
     fn tcsetpgrp(&mut self, _fd: i32, pgid: i32) -> i32 {
         let mut w = self.w.lock().unwrap();
         let who = if pgid == SHELL_PGID {
